@@ -135,7 +135,11 @@ func checkC18(r *run, c *TimeCase) (CaseInfo, error) {
 		return ci, failf("AbsSendTime Unmarshal: %v", err)
 	}
 	for _, e := range []*rtp.AbsSendTimeExtension{&onWire, full} {
+		stored := e.Timestamp
 		est := e.Estimate(recv).UnixNano()
+		if again := e.Estimate(recv).UnixNano(); again != est || e.Timestamp != stored {
+			return ci, failf("Estimate called twice on one extension: %d ns then %d ns; Timestamp field %#x then %#x", est, again, stored, e.Timestamp)
+		}
 		if diff := c.T - est; diff < -1 || diff > 3816 {
 			return ci, failf("Estimate(send+%d ns) = %d ns for send instant %d ns: off by %d ns (resolution 3815 ns); 24-bit value %#x", c.D, est, c.T, diff, e.Timestamp&0xFFFFFF)
 		}
@@ -238,7 +242,7 @@ func genTimeCase(t *rapid.T) *TimeCase {
 	return c
 }
 
-const ruleC18 = "rapid draws (instant, delay, offset): instants in [1970, NTP era end 2036) uniformly, within +-5 ms (and at +-{0,1,2,3814,3815,3816} ns) of 64 s wrap points of the 24-bit field, at whole seconds +-2 ns, at the first/last nanoseconds of 2^-18 s cells of the field, at the era edges; delays in [0, 64 s - 3815 ns] incl. 0, max and values that carry the receive time just across a wrap; offsets in (-2^31 s, 2^31 s) incl. 0, +-1 ns, +-(2^31 s - 1 ns), whole seconds; the time.Time values carry the default location or (half of the cases) a fixed-offset zone between -14 h and +14 h, independently for the send and the receive instant. Oracle (integer/big.Int arithmetic only): |CaptureTime(New(t)) - t| <= 1 ns, offset recovered within 1 ns with its sign (read twice, and once more after a by-value copy of the extension decoded other bytes), -1 ns <= t - Estimate(t+d) <= 3816 ns for the 24-bit wire value and the unmasked constructor value, NTP/6.18 encodings equal the exact big.Int reference. Non-trivial = receive time in another 64 s window than the send time, or non-zero offset; distinct = FNV-64 of the JSON case"
+const ruleC18 = "rapid draws (instant, delay, offset): instants in [1970, NTP era end 2036) uniformly, within +-5 ms (and at +-{0,1,2,3814,3815,3816} ns) of 64 s wrap points of the 24-bit field, at whole seconds +-2 ns, at the first/last nanoseconds of 2^-18 s cells of the field, at the era edges; delays in [0, 64 s - 3815 ns] incl. 0, max and values that carry the receive time just across a wrap; offsets in (-2^31 s, 2^31 s) incl. 0, +-1 ns, +-(2^31 s - 1 ns), whole seconds; the time.Time values carry the default location or (half of the cases) a fixed-offset zone between -14 h and +14 h, independently for the send and the receive instant. Oracle (integer/big.Int arithmetic only): |CaptureTime(New(t)) - t| <= 1 ns, offset recovered within 1 ns with its sign (read twice, and once more after a by-value copy of the extension decoded other bytes), -1 ns <= t - Estimate(t+d) <= 3816 ns for the 24-bit wire value and the unmasked constructor value (each estimated twice: same answer, extension unchanged), NTP/6.18 encodings equal the exact big.Int reference. Non-trivial = receive time in another 64 s window than the send time, or non-zero offset; distinct = FNV-64 of the JSON case"
 
 func TestC18(t *testing.T) {
 	r := begin(t, "C18", "exploration", ruleC18)
